@@ -316,6 +316,7 @@ pub enum Stat {
     AppliedUnpersisted,
     ApiProbes,
     GroupCommitChecked,
+    TalliesChecked,
     _N,
 }
 pub const NSTAT: usize = Stat::_N as usize;
@@ -361,6 +362,7 @@ pub const STAT_NAMES: [&str; NSTAT] = [
     "entries_handed_out_before_persisted",
     "api_probes_on_clones",
     "group_commits_checked_against_two_groups",
+    "election_wins_checked_against_released_grants",
 ];
 
 pub struct Ctx {
